@@ -220,6 +220,12 @@ func runC15(c *Ctx, i int, r *rand.Rand) {
 	if err != nil {
 		return
 	}
+	// every history has a transcoder, and so a pool, of its own: what the tracker knows about the previous history's
+	// buffers and codecs is of no use any more, and holding on to it keeps every buffer ever pooled alive
+	c15Stats.mu.Lock()
+	c15Stats.lastFailed, c15Stats.codecFailed = map[*bytes.Buffer]bool{}, map[any]bool{}
+	c15Stats.touched, c15Stats.touchedCodecs = nil, nil
+	c15Stats.mu.Unlock()
 	probes := c15Probes(r, cfg)
 	if cfg.TwoResolvers {
 		probes = append(probes, c15PrivateProbes(r, cfg)...)
